@@ -130,8 +130,14 @@ def main(argv):
     # 4. correspondence + observation checker
     if ok_driver:
         ctx.driver = common.Driver()
+    cov = common.ImplCoverage(prop)
     try:
-        mod.run(ctx)
+        with cov:
+            mod.run(ctx)
+        try:
+            ctx.impl_coverage = cov.report()
+        except Exception:
+            traceback.print_exc()
     except Infra:
         raise
     except Exception as ex:
